@@ -263,8 +263,11 @@ pub fn run_sequence(kind: &str, nhandles: usize, seq: &[Step], st: &mut Stats) -
                 match wr.commit() {
                     Ok(_) => {
                         if w.killed {
-                            // a commit after the worker failure succeeded: the documents accepted since are published
+                            // a commit after a worker failure can return Ok while the writer has no indexing
+                            // worker left (the failed prepare_commit drained them and did not re-create any):
+                            // that is C11's recorded finding; until a rollback this writer is not probed here
                             w.killed = false;
+                            w.no_workers = true;
                         }
                         w.committed_docs = w.handles[h].reader().ok()?.searcher().num_docs();
                     }
